@@ -6,6 +6,7 @@
 From Coq Require Import List Bool Arith ZArith Lia.
 Require Import HT TEL LTLUnique BodyTheoryCore GenPrelude TheoryPrelude FromTheory Leaf_theory FullOps.
 Require BodyTheoryFull.
+Require Import FormPrelude FromBodyForm BodyForm TheoryBuild TheoryLink.
 
 (* In every state reachable with an empty work list, for every assignment v of the auxiliary atoms that violates no
    emitted constraint and gives unresolved placeholders their external value, the literal cached for formula f at
@@ -81,6 +82,17 @@ Proof. exact (fun A D => F.definitional_extension_full A D boolean_clauses_spec 
 Theorem C03_full_initial_state : forall (A : Type) (A_eq_dec : forall a b : A, {a = b} + {a <> b}) (h : nat), F.Inv A A_eq_dec h nil (F.init A) /\ F.Gw A A_eq_dec (F.init A).
 Proof. intros A D h. split; [apply F.Inv_init|apply F.Gw_init]. Qed.
 
+(* the LTLf semantics of the model's formula objects is the semantics of the specification (what the extracted oracle evaluates) *)
+Theorem C03_model_semantics_is_the_specification : forall (A : Type) (h : nat) (T : TEL.trace A) (f : F.bf A) (k : nat),
+  F.lsat A h T f k = TEL.lsat A h T (embf A f) k.
+Proof. exact lsat_embf. Qed.
+(* an object built for a table entry of create_formula (regenerated) has the value semantics of Model/BodyForm.v, which is the documented
+   reading of the operator (C16_create_formula_builds_the_documented_formulas) *)
+Theorem C03_built_objects_have_the_table_semantics : forall (h : nat) (T : TEL.trace nat) (ini fin : nat),
+  (forall k, T k ini = (k =? 0)) -> (forall k, T k fin = (k =? h)) ->
+  forall e L R n b, den ini fin e L R n = Some b -> forall k, F.lsat nat h T b k = fval h e (F.lsat nat h T L) (F.lsat nat h T R) n k.
+Proof. exact den_sem. Qed.
+
 (* Semantic layer for the FULL body operator set: any valuation that satisfies the per-horizon definitional equations
    (the equations the Tseitin clauses of each constructor encode) is the LTLf value. *)
 Theorem C03_equations_determine_LTLf : forall (A : Type) (T : nat -> A -> bool) (h : nat) (v : LTLUnique.f A -> nat -> bool),
@@ -150,3 +162,5 @@ Print Assumptions C03_full_step.
 Print Assumptions C03_full_first_horizon.
 Print Assumptions C03_full_definitional.
 Print Assumptions C03_full_initial_state.
+Print Assumptions C03_model_semantics_is_the_specification.
+Print Assumptions C03_built_objects_have_the_table_semantics.
